@@ -361,6 +361,12 @@ impl std::io::Seek for SchedReader {
 /// `fn main() { bio_verif_harness::run(drive) }` — every family is its own binary
 /// `src/bin/<family>.rs`, so a family that does not compile cannot break another check.
 pub fn run(drive: fn(&mut Log)) {
+    run_with_mem(drive, 4 << 30)
+}
+
+/// the same with another limit on the address space (families whose inputs are lazily committed
+/// allocations larger than 4 GiB, of which only a few pages are ever touched)
+pub fn run_with_mem(drive: fn(&mut Log), mem_bytes: u64) {
     let opts = parse_opts();
     if opts.out.is_empty() {
         eprintln!("usage: <family> --out FILE [--tier quick|thorough] [--seed N] [--shard i/n] [--skip N] [--replay FILE] [--budget PCT]");
@@ -370,7 +376,7 @@ pub fn run(drive: fn(&mut Log)) {
         .ok()
         .and_then(|s| s.parse().ok())
         .unwrap_or(10_000);
-    install_guards(timeout, 4 << 30);
+    install_guards(timeout, mem_bytes);
     let mut log = Log::new(opts);
     drive(&mut log);
     log.finish();
